@@ -69,7 +69,7 @@ void lweSubTo(LweSample *result, const LweSample *sample, const LweParams *param
     if (log_n <= MAXCALLS) log_sample[log_n] = sample;
     log_n++;
 }
-LweSample *new_LweSample_array(int32_t nbelts, const LweParams *params) { return (LweSample *)malloc((size_t)nbelts * sizeof(LweSample)); }
+LweSample *new_LweSample_array(int32_t nbelts, const LweParams *params) { return (LweSample *)verif_alloc((size_t)nbelts * sizeof(LweSample)); }
 void delete_LweSample_array(int32_t nbelts, LweSample *obj) { free(obj); }
 #include "extracted.inc"
 void h_b_translate(void) {
